@@ -134,6 +134,8 @@ class Sim:
         self.count("cfg_scale_" + ("none" if world["scale"] is None else ("ones" if len(set(world["scale"])) == 1 else "aniso")))
         self.count("cfg_pos_" + world["pos_mode"])
         self.count("cfg_ids_" + world["ids"])
+        if world.get("big"):
+            self.count("cfg_big_sparse_ids")
         if not world["nodes"]:
             self.count("cfg_empty_start")
 
